@@ -1,4 +1,8 @@
 import pdo_check
 def run(ctx):
     pdo_check.run(ctx, ["C14T", "C14R", "C14W", "C14X"], quick_edges=6000, walks=(30, 2000), secondary=3500, shift_n=1500)
+    # reconfiguration while timers run and NMT transitions happen in between (product model CoFull: COB-ID / event time / inhibit time /
+    # SYNC object writes next to ticks, triggers and every other service)
+    import full_check
+    full_check.run(ctx, 300 if ctx.tier == "quick" else 20000)
 VARIANTS = {"default": (), "r4t2": ("CO_RPDO_N=4", "CO_TPDO_N=2"), "r2t4": ("CO_RPDO_N=2", "CO_TPDO_N=4")}
